@@ -130,7 +130,7 @@ func runLocalShard(i, n int, r *core.Result) {
 			lCountEffects(c, h, r)
 		}
 		for _, p := range paths {
-			lRunPath(c, p, r, false)
+			lCheck(c, p, r)
 			r.Add("L_node_lives", 1)
 			if core.OutOfTime() {
 				break
@@ -181,13 +181,14 @@ func replayLocal(cs lcase) int {
 		b := c.blocks[h]
 		fmt.Printf("  reference block %d (%s) mined by %s: %s, %d transactions, %d change logs\n", h, lHeightKind(uint32(h)), lrole(b.MinerAddress()), b.Hash().Prefix(), len(b.Txs), len(b.ChangeLogs))
 	}
-	for _, l := range lRunPath(c, cs.Path, r, true) {
+	tr, vs := lRunPath(c, cs.Path, r, true)
+	for _, l := range tr {
 		fmt.Println("  " + l)
 	}
-	for _, v := range r.Violations {
+	for _, v := range vs {
 		fmt.Printf("VIOLATION-REPLAYED %s\n%s\n", v.Fingerprint, v.What)
 	}
-	return len(r.Violations)
+	return len(vs)
 }
 
 func lRuleText() string {
